@@ -4,7 +4,7 @@ import re
 from ..core import CheckError, op_const
 from ..effects import Effects
 from ..prov import reads_locals, sources
-from .c01 import APPEND, event_aggregate_for
+from .c01 import APPEND, event_aggregate_for, ok_edge_of_try
 
 STORE = 'ripd::continuities::ContinuityStore::'
 
@@ -12,10 +12,44 @@ STORE = 'ripd::continuities::ContinuityStore::'
 def run(ctx):
     P = ctx.prog
     E = Effects(P)
-    ctx.not_decided = 'the cut arithmetic (max related seq, last message at or before the cut); that the lineage frame cannot interleave with a concurrent writer on the new thread (K-C01-unlocked).'
-    ctx.rule('C10.1', 'parent untouched: in branch / handoff the stream id of every appended frame derives from the result of create_continuity (a fresh id: its continuity_id argument is None) and never from the parent-id parameter.')
-    ctx.rule('C10.2', 'first two frames: create_continuity dominates the lineage append, no other truth append lies between them, the lineage frame has the constant seq 1 and next_seq is then set to 2.')
-    ctx.rule('C10.3', 'validation before effect: no locally built `return Err(..)` (a validation failure) is reachable after create_continuity.')
+    ctx.not_decided = 'the cut arithmetic (max related seq, last message at or before the cut) beyond the structural clauses below.'
+    ctx.rule('C10.1', 'parent untouched: branch / handoff create the child through create_continuity with continuity_id = None (a fresh UUID) and hand it the lineage frame; no other appending call in them receives the parent id; inside create_continuity both frames carry the id of the thread being created.')
+    ctx.rule('C10.2', 'first two frames: in create_continuity the creation frame (ContinuityCreated, constant seq 0) dominates the lineage frame (the `lineage` parameter, constant seq 1) with no other truth append between them; branch passes ContinuityBranched and handoff ContinuityHandoffCreated.')
+    ctx.rule('C10.3', 'validation before effect: no locally built `return Err(..)` (a validation failure) is reachable after the create_continuity call, and nothing that can fail lies between it and the success return.')
+
+    c = P.fn(STORE + 'create_continuity')
+    ctx.touch(c)
+    aps = c.calls(APPEND)
+    if len(aps) != 2:
+        raise CheckError('C10.2: create_continuity is expected to append the creation frame and the optional lineage frame (found %d appends)' % len(aps))
+    first = [x for x in aps if c.dom(x.bb, [y for y in aps if y is not x][0].bb)]
+    if len(first) != 1:
+        raise CheckError('C10.2: the two appends of create_continuity are not ordered by dominance')
+    a0 = first[0]
+    a1 = [x for x in aps if x is not a0][0]
+    _, agg0 = event_aggregate_for(c, a0)
+    _, agg1 = event_aggregate_for(c, a1)
+    if agg0 is None or agg1 is None:
+        raise CheckError('C10.2: frame aggregates of create_continuity not found')
+    k0 = op_const(agg0['a'][agg0['fields'].index('seq')])
+    o0 = c.origin(agg0['a'][agg0['fields'].index('kind')])
+    ctx.ob('C10.2', c, 'creation-frame', k0 is not None and k0.get('v') == '0' and o0[0] == 'rv' and o0[1].get('variant') == 'ContinuityCreated',
+           'first frame is %s at seq %s' % (o0[1].get('variant') if o0[0] == 'rv' else '?', k0.get('v') if k0 else '?'), line=a0.line)
+    k1 = op_const(agg1['a'][agg1['fields'].index('seq')])
+    lin = [i for i in range(1, c.argc + 1) if c.lname(i) == 'lineage']
+    kl = c.root_local(agg1['a'][agg1['fields'].index('kind')])
+    from ..prov import reads_locals as _rl
+    from_param = bool(lin) and lin[0] in _rl(c, agg1['a'][agg1['fields'].index('kind')])
+    ctx.ob('C10.2', c, 'lineage-frame', k1 is not None and k1.get('v') == '1' and from_param,
+           'second frame has seq %s and its kind is the `lineage` parameter: %s' % (k1.get('v') if k1 else '?', from_param), line=a1.line)
+    e0 = ok_edge_of_try(c, a0)
+    ctx.ob('C10.2', c, 'create-before-lineage', e0 is not None and e0[1] is not None and c.edge_dom(e0[0], e0[1], a1.bb), 'the lineage frame is appended only after the creation frame is in the log', line=a1.line)
+    between = [x for x in E.sites_with(c, 'TruthAppend') if x.bb not in (a0.bb, a1.bb) and c.can_reach(a0.bb, x.bb) and c.can_reach(x.bb, a1.bb)]
+    ctx.ob('C10.2', c, 'nothing-between', not between, 'no other truth append lies between creation and lineage', line=a1.line)
+    s0 = agg0['a'][agg0['fields'].index('session_id')]
+    s1 = agg1['a'][agg1['fields'].index('session_id')]
+    same = c.root_local(s0, through_calls=(r'::clone$', r'Clone>::clone$')) == c.root_local(s1, through_calls=(r'::clone$', r'Clone>::clone$')) is not None
+    ctx.ob('C10.1', c, 'both-frames-on-child', bool(same), 'both frames carry the same (new) stream id', line=a1.line)
 
     for name, parent_param, lineage in (('branch', 'parent_thread_id', 'ContinuityBranched'), ('handoff', 'from_thread_id', 'ContinuityHandoffCreated')):
         f = P.fn(STORE + name)
@@ -28,45 +62,25 @@ def run(ctx):
         if len(cc) != 1:
             raise CheckError('C10: %s is expected to call create_continuity once (found %d)' % (name, len(cc)))
         cc = cc[0]
-        # fresh id
         k = f.origin(cc.args[2])
         fresh = k[0] == 'rv' and k[1].get('variant') == 'None'
         ctx.ob('C10.1', f, 'fresh-child-id', fresh, 'create_continuity is called with continuity_id = None (a fresh UUID)', line=cc.line)
-        apps = f.calls(APPEND)
-        if len(apps) != 1:
-            raise CheckError('C10: %s is expected to append one lineage frame directly (found %d)' % (name, len(apps)))
-        ap = apps[0]
-        evl, agg = event_aggregate_for(f, ap)
-        if agg is None:
-            raise CheckError('C10: lineage Event aggregate not found in ' + name)
-        sid = agg['a'][agg['fields'].index('session_id')]
-        reads = reads_locals(f, sid)
-        src = sources(f, sid)
-        from_child = any(x[0] == 'call' and x[1].endswith('ContinuityStore::create_continuity') for x in src)
-        ctx.ob('C10.1', f, 'lineage-on-child', from_child and pidx not in reads,
-               'the lineage frame\'s stream id derives from %s' % ('the create_continuity result only' if from_child and pidx not in reads else 'something other than the new thread id (parent parameter read: %s)' % (pidx in reads)), line=ap.line)
-        # every other appending call: must not take the parent id
+        # lineage argument: Some(EventKind::<lineage>)
+        lo = f.origin(cc.args[5]) if len(cc.args) > 5 else ('?',)
+        kind = None
+        kv = None
+        if lo[0] == 'rv' and lo[1].get('variant') == 'Some':
+            ko = f.origin(lo[1]['a'][0])
+            if ko[0] == 'rv' and ko[1].get('adt') == 'rip_kernel::EventKind':
+                kind = ko[1]['variant']
+                kv = ko[1]
+        ctx.ob('C10.2', f, 'lineage-kind', kind == lineage, 'the lineage frame handed to create_continuity is %s' % kind, line=cc.line)
         for s in E.sites_with(f, 'TruthAppend'):
-            if s is ap or s.bb == ap.bb or s.bb == cc.bb:
+            if s.bb == cc.bb:
                 continue
             takes_parent = any(pidx in reads_locals(f, a) for a in s.args)
             ctx.ob('C10.1', f, 'no-append-to-parent:' + s.name, not takes_parent, '%s %s' % (s.name, 'does not receive the parent id' if not takes_parent else 'receives the PARENT id and can append to the parent thread'), line=s.line)
-        kind = None
-        kop = agg['a'][agg['fields'].index('kind')]
-        o = f.origin(kop)
-        if o[0] == 'rv':
-            kind = o[1].get('variant')
-        ctx.ob('C10.2', f, 'lineage-kind', kind == lineage, 'second frame is %s' % kind, line=ap.line)
-        ctx.ob('C10.2', f, 'create-before-lineage', f.dom(cc.bb, ap.bb), 'create_continuity dominates the lineage append', line=ap.line)
-        between = [s for s in E.sites_with(f, 'TruthAppend') if s.bb not in (cc.bb, ap.bb) and f.can_reach(cc.bb, s.bb) and f.can_reach(s.bb, ap.bb)]
-        ctx.ob('C10.2', f, 'nothing-between', not between, 'no other truth append lies between creation and lineage', line=ap.line)
-        seqk = op_const(agg['a'][agg['fields'].index('seq')])
-        ctx.ob('C10.2', f, 'lineage-seq-1', seqk is not None and seqk.get('v') == '1', 'lineage seq is %s' % (seqk.get('v') if seqk else 'non-constant'), line=ap.line)
-        ins = [i for i in f.calls(r'hash::map::HashMap::insert$') if f.can_reach(ap.bb, i.bb)]
-        okins = len(ins) == 1 and op_const(ins[0].args[2]) is not None and op_const(ins[0].args[2]).get('v') == '2' and \
-            any(x[0] == 'call' and x[1].endswith('create_continuity') for x in sources(f, ins[0].args[1]))
-        ctx.ob('C10.2', f, 'next-seq-2', okins, 'after the lineage frame next_seq[child] is set to the constant 2', line=ins[0].line if ins else ap.line)
-        # C10.3
+        ctx.ob('C10.1', f, 'single-appending-call', len([s for s in E.sites_with(f, 'TruthAppend')]) == 1, 'the only appending call of %s is create_continuity' % name, line=cc.line)
         after = f.reach_from_after(cc.bb)
         local_errs = [(bi, st) for (bi, si, st) in f.aggregates(r'^core::result::Result$', 'Err') if st['d']['l'] == 0 and 'p' not in st['d']]
         ctx.floor('C10.3', 'validation returns in ' + name, len(local_errs), 3)
@@ -74,62 +88,40 @@ def run(ctx):
         ctx.ob('C10.3', f, 'validate-before-create', not late,
                '%d validation return(s); %s' % (len(local_errs), 'none is reachable after create_continuity' if not late else 'one at line %s is reachable AFTER the child thread was created' % late[0][1].get('ln')),
                line=late[0][1].get('ln') if late else cc.line)
-    c104(ctx)
+        fall = [s for s in f.sites() if s.bb in after and re.search(r'Try>::branch$', s.callee) and s.bb != cc.bb and not f.dom(s.bb, cc.bb)]
+        e = ok_edge_of_try(f, cc)
+        fall = [s for s in fall if e is not None and e[1] is not None and f.edge_dom(e[0], e[1], s.bb)]
+        ctx.ob('C10.3', f, 'nothing-fallible-after-create', not fall, 'after the child exists %s' % ('nothing can fail before the success return' if not fall else 'a `?` can still return an error (the child would exist without the caller knowing)'), line=fall[0].line if fall else cc.line)
+        if name == 'handoff':
+            c104(ctx, f, kv, cc)
     c105(ctx)
-    # create_continuity itself: first frame is ContinuityCreated with seq 0
-    c = P.fn(STORE + 'create_continuity')
-    ctx.touch(c)
-    ap = c.calls(APPEND)
-    if len(ap) != 1:
-        raise CheckError('C10.2: create_continuity is expected to append exactly one frame')
-    evl, agg = event_aggregate_for(c, ap[0])
-    seqk = op_const(agg['a'][agg['fields'].index('seq')])
-    o = c.origin(agg['a'][agg['fields'].index('kind')])
-    ctx.ob('C10.2', c, 'creation-frame', seqk is not None and seqk.get('v') == '0' and o[0] == 'rv' and o[1].get('variant') == 'ContinuityCreated',
-           'first frame is %s at seq %s' % (o[1].get('variant') if o[0] == 'rv' else '?', seqk.get('v') if seqk else '?'), line=ap[0].line)
 
 
-def c104(ctx):
+def c104(ctx, f, kv, cc):
     """a handoff always carries a resolvable summary: the request is refused unless a summary text
     or artifact id is present, and the frame must carry exactly the values that test saw (plus an
     artifact id minted from the text) — a value re-derived after the test escapes it."""
-    from ..core import switches
-    P = ctx.prog
     ctx.rule('C10.4', 'handoff summary: the "summary required" refusal tests summary_markdown / summary_artifact_id, and the summary_markdown / summary_artifact_id stored in the ContinuityHandoffCreated frame are those very locals (the artifact id possibly re-assigned from write_bundle_v1): no filtered or re-derived copy is stored.')
-    f = P.fn(STORE + 'handoff')
-    ctx.touch(f)
-    # locals tested by is_none in the validation (before create_continuity)
-    cc = f.calls(r'ContinuityStore::create_continuity$')[0]
+    if kv is None:
+        raise CheckError('C10.4: handoff lineage frame not found')
     tested = {}
     for t in f.calls(r'core::option::Option::<T>::is_none$|core::option::Option::<T>::is_some$'):
-        if f.can_reach(cc.bb, t.bb):
-            continue
         r = f.root_local(t.args[0])
         if r is not None and f.locals[r].get('n') in ('summary_markdown', 'summary_artifact_id'):
-            tested[f.lname(r)] = r
+            # the refusal: its true edge leads to a validation return
+            tested.setdefault(f.lname(r), r)
     for nm in ('summary_markdown', 'summary_artifact_id'):
         if nm not in tested:
-            ctx.ob('C10.4', f, 'summary-tested:' + nm, False, 'the refusal no longer tests `%s` before the child thread is created' % nm, line=f.line)
-    ap = f.calls(APPEND)[0]
-    evl, agg = event_aggregate_for(f, ap)
-    o = f.origin(agg['a'][agg['fields'].index('kind')])
-    if not (o[0] == 'rv' and o[1].get('variant') == 'ContinuityHandoffCreated'):
-        raise CheckError('C10.4: handoff lineage frame not found')
-    kv = o[1]
+            ctx.ob('C10.4', f, 'summary-tested:' + nm, False, 'the refusal no longer tests `%s`' % nm, line=f.line)
     for nm in ('summary_markdown', 'summary_artifact_id'):
         op = kv['a'][kv['fields'].index(nm)]
         r = f.root_local(op)
         same = r is not None and r == tested.get(nm)
         ctx.ob('C10.4', f, 'frame-carries-validated:' + nm, same,
                'ContinuityHandoffCreated.%s is %s' % (nm, 'the local the refusal tested' if same else
-                                                      'NOT the value the "summary required" test saw (a copy re-derived after the test): the frame can carry neither text nor artifact'), line=ap.line)
-    # the only re-assignment of the artifact id is from the bundle writer
+                                                      'NOT the value the "summary required" test saw (a copy re-derived after the test): the frame can carry neither text nor artifact'), line=cc.line)
     aid = tested.get('summary_artifact_id')
     if aid is not None:
-        defs = f.defs(aid)
-        bad = []
-        for d in defs[1:] if len(defs) > 1 else []:
-            src = sources(f, {'c': {'l': aid}})
         wr = [x for x in sources(f, {'c': {'l': aid}}) if x[0] == 'call']
         okw = all(re.search(r'write_bundle_v1$', x[1]) for x in wr)
         ctx.ob('C10.4', f, 'artifact-id-only-from-writer', okw, 'summary_artifact_id is only ever re-assigned from write_bundle_v1 (%s)' % sorted(x[1].rsplit('::', 1)[-1] for x in wr), line=f.line)
